@@ -46,6 +46,9 @@ type Scn struct {
 	Tolerant bool     `json:",omitempty"` // schedule from a refuted shape of the model: a timer the code does not let fire is skipped, not drift
 	Wire     bool     `json:",omitempty"` // gaps are realised in wall-clock time on the wire, whatever the parser has consumed by then
 	PaceMs   int      `json:",omitempty"` // Wire: the consumer takes this long over every item
+	// CloseStop: Close is requested while the parser waits in Read; what follows (the remaining chunks, then the end) are
+	// reader returns handed over one at a time, the next one only when the parser is seen waiting in yet another Read
+	CloseStop bool `json:",omitempty"`
 }
 
 type Result struct {
@@ -57,6 +60,7 @@ type Result struct {
 	Drift    string           `json:"drift"`    // schedule could not be followed (model drift, no verdict)
 	EarlyEnd bool             `json:"earlyEnd"` // Close was requested before all input was delivered
 	Ambig    bool             `json:"ambig"`    // a "short" gap after a lone ESC could not be kept short: timing not judged
+	StopRets int              `json:"stopRets"` // Read calls that returned after Close() until the channel was closed (-1: no Close)
 	Log      []string         `json:"log,omitempty"`
 }
 
@@ -68,6 +72,7 @@ type reader struct {
 	chunks  [][]byte
 	end     error // returned when chunks are exhausted and end != nil
 	waiting bool
+	rets    int // Read calls that have returned
 }
 
 func newReader() *reader { r := &reader{}; r.cond = sync.NewCond(&r.mu); return r }
@@ -81,6 +86,7 @@ func (r *reader) Read(p []byte) (int, error) {
 		r.cond.Wait()
 	}
 	r.waiting = false
+	r.rets++
 	if len(r.chunks) == 0 {
 		return 0, r.end
 	}
@@ -107,6 +113,12 @@ func (r *reader) finish(err error) {
 	r.waiting = false
 	r.cond.Broadcast()
 	r.mu.Unlock()
+}
+
+func (r *reader) returned() int {
+	r.mu.Lock()
+	defer r.mu.Unlock()
+	return r.rets
 }
 
 // idle reports whether the parser has consumed everything and is blocked in Read.
@@ -202,6 +214,7 @@ type exec struct {
 	cop   []ansi.Sequence // deep copies taken on delivery
 	eof   bool
 	chEnd bool
+	base  int // reader returns at the moment of Close (-1: no Close yet)
 }
 
 func deepCopy(s ansi.Sequence) ansi.Sequence {
@@ -288,8 +301,8 @@ func (e *exec) endErr() error {
 
 // Execute runs one scenario in this process.
 func Execute(sc *Scn) (res *Result) {
-	res = &Result{Items: []map[string]any{}, Kept: true}
-	e := &exec{sc: sc, r: newReader(), res: res}
+	res = &Result{Items: []map[string]any{}, Kept: true, StopRets: -1}
+	e := &exec{sc: sc, r: newReader(), res: res, base: -1}
 	defer func() { ansi.VerifHook = nil }()
 	if len(sc.Sched) > 0 {
 		e.g = &gates{sig: make(chan struct{}, 1)}
@@ -318,6 +331,9 @@ func Execute(sc *Scn) (res *Result) {
 			break
 		}
 		e.recv(20 * time.Millisecond)
+	}
+	if e.base >= 0 && e.chEnd {
+		res.StopRets = e.r.returned() - e.base
 	}
 	res.Closed = e.chEnd && e.eof && len(res.Items) > 0 && res.Items[len(res.Items)-1]["t"] == "eof"
 	for i := range e.kept {
@@ -368,8 +384,12 @@ func (e *exec) plain() {
 		// this chunk and the following short-gap chunks go out back to back
 		firedAtPut = nfired()
 		for {
+			if sc.CloseStop && sc.CloseAt == i {
+				e.closeStop(i)
+				return
+			}
 			if sc.CloseAt == i {
-				e.p.Close()
+				e.doClose()
 				e.res.EarlyEnd = true
 			}
 			b, _ := hex.DecodeString(sc.Chunks[i].Hex)
@@ -393,8 +413,12 @@ func (e *exec) plain() {
 			e.recv(time.Millisecond)
 		}
 	}
+	if sc.CloseStop && sc.CloseAt == len(sc.Chunks) {
+		e.closeStop(len(sc.Chunks))
+		return
+	}
 	if sc.CloseAt == len(sc.Chunks) {
-		e.p.Close()
+		e.doClose()
 	}
 	if sc.EndLong {
 		if !e.untilIdle() {
@@ -404,6 +428,49 @@ func (e *exec) plain() {
 		waitGap()
 	}
 	e.r.finish(e.endErr())
+}
+
+// doClose calls Close and notes how many Read calls have returned by then: a Read that returns later has returned after
+// Close (one that returns between the two statements is not counted: the count errs on the lenient side).
+func (e *exec) doClose() {
+	e.p.Close()
+	if e.base < 0 {
+		e.base = e.r.returned()
+	}
+}
+
+// closeStop: Close is requested while the parser waits in Read with everything delivered so far consumed.  Chunk i and
+// the following ones, then the end of input, are each one return of the reader; the next is handed over only once the
+// parser is seen waiting in another Read (an observation, not a time-out).  How many returns it took until the channel
+// was closed is counted by the reader itself (Execute).
+func (e *exec) closeStop(i int) {
+	sc := e.sc
+	if !e.untilIdle() {
+		e.res.Hang = fmt.Sprintf("parser did not consume its input before Close (chunk %d)", i)
+		return
+	}
+	e.doClose()
+	e.res.EarlyEnd = true
+	for ; !e.chEnd; i++ {
+		if i >= len(sc.Chunks) {
+			e.r.finish(e.endErr())
+			return // Execute drains and waits for the closure
+		}
+		b, _ := hex.DecodeString(sc.Chunks[i].Hex)
+		if len(b) == 0 {
+			continue
+		}
+		e.r.put(b)
+		deadline := time.Now().Add(3 * time.Second)
+		for !e.chEnd && !e.r.idle() {
+			if time.Now().After(deadline) {
+				e.res.Hang = fmt.Sprintf("parser neither stopped nor read on after Close and chunk %d", i)
+				e.r.finish(e.endErr())
+				return
+			}
+			e.recv(time.Millisecond)
+		}
+	}
 }
 
 // WireGap is the silence on the wire of a Wire scenario (6 x the ESC delay).
@@ -437,14 +504,14 @@ func (e *exec) wire() {
 			time.Sleep(WireGap)
 		}
 		if sc.CloseAt == i {
-			e.p.Close()
+			e.doClose()
 			e.res.EarlyEnd = true
 		}
 		b, _ := hex.DecodeString(c.Hex)
 		e.r.put(b)
 	}
 	if sc.CloseAt == len(sc.Chunks) {
-		e.p.Close()
+		e.doClose()
 	}
 	if sc.EndLong {
 		time.Sleep(WireGap)
@@ -664,7 +731,7 @@ func (e *exec) schedule() {
 				return
 			}
 		case "DoClose":
-			e.p.Close()
+			e.doClose()
 			if next <= len(sc.Chunks) {
 				e.res.EarlyEnd = true
 			}
